@@ -21,6 +21,7 @@ type Engine struct {
 	db             *SpecDB
 	ghostByType    map[string]*GhostField
 	ghostOwnerSort map[string]string
+	ghostOwnerType map[string]types.Type
 	modulePath     string
 	repoDir        string
 	inlineDepth    int
@@ -50,8 +51,8 @@ func LoadEngine(repoDir string, patterns []string) (*Engine, error) {
 	prog, _ := ssautil.AllPackages(pkgs, ssa.InstantiateGenerics|ssa.GlobalDebug)
 	prog.Build()
 	e := &Engine{prog: prog, pkgs: map[string]*packages.Package{}, ssaPkgs: map[string]*ssa.Package{}, funcs: map[string]*ssa.Function{},
-		db: NewSpecDB(), ghostByType: map[string]*GhostField{}, ghostOwnerSort: map[string]string{}, repoDir: repoDir,
-		inlineDepth: 3, inlineSize: 60, inlinePkgs: map[string]bool{}, makeLimit: pow2(40)}
+		db: NewSpecDB(), ghostByType: map[string]*GhostField{}, ghostOwnerSort: map[string]string{}, ghostOwnerType: map[string]types.Type{}, repoDir: repoDir,
+		inlineDepth: 3, inlineSize: 60, inlinePkgs: map[string]bool{"github.com/ipfs/go-cid": true}, makeLimit: pow2(40)}
 	packages.Visit(pkgs, nil, func(p *packages.Package) {
 		e.pkgs[p.PkgPath] = p
 		if p.Module != nil && p.Module.Main {
@@ -164,6 +165,14 @@ func (e *Engine) LoadSpecs(extDir string) error {
 		}
 		e.ghostByType[owner+"."+g.Name] = g
 		e.db.Ghosts[owner+"."+g.Name] = g
+		// resolve the owner type object
+		if i := strings.LastIndex(owner, "."); i >= 0 {
+			if p, ok := e.pkgs[owner[:i]]; ok && p.Types != nil {
+				if o := p.Types.Scope().Lookup(owner[i+1:]); o != nil {
+					e.ghostOwnerType[owner+"."+g.Name] = o.Type()
+				}
+			}
+		}
 	}
 	// canonicalise interface-method and functype keys: "pkgname.Type.Method" -> "pkgpath.Type.Method"
 	canon := func(m map[string]*Contract, isMethod bool) {
@@ -218,6 +227,7 @@ type FuncResult struct {
 	Unknown   map[string]int
 	Trusted   map[string]bool
 	Inlined   map[string]bool
+	Assumed   map[string]bool
 	Prelude   string
 	Axioms    []string
 	SpecError string
@@ -237,7 +247,7 @@ func (e *Engine) VerifyFunction(key string, property string, safety bool) (res *
 	ct := e.db.Contracts[key]
 	c := &Ctx{eng: e, reg: NewRegistry(), fn: fn, contract: ct, property: property, maxPaths: 4000,
 		unknownCalls: map[string]int{}, trustedUsed: map[string]bool{}, inlined: map[string]bool{}, ifaceTypes: map[string]types.Type{},
-		instrOrd: map[ssa.Instruction]int{}, memSorts: map[string]string{}, safety: safety, usedPures: map[string]bool{}}
+		instrOrd: map[ssa.Instruction]int{}, memSorts: map[string]string{}, safety: safety, usedPures: map[string]bool{}, assumedClauses: map[string]bool{}}
 	if ct != nil {
 		if v, ok := ct.FlagArgs["maxpaths"]; ok {
 			fmt.Sscanf(v, "%d", &c.maxPaths)
@@ -262,6 +272,7 @@ func (e *Engine) VerifyFunction(key string, property string, safety bool) (res *
 		res.Unknown = c.unknownCalls
 		res.Trusted = c.trustedUsed
 		res.Inlined = c.inlined
+		res.Assumed = c.assumedClauses
 		c.finish(res)
 	}()
 	c.run()
@@ -407,7 +418,7 @@ func (c *Ctx) finish(res *FuncResult) {
 			}
 			use := false
 			for name := range c.usedPures {
-				if mentions(ax.Body, name) {
+				if mentionsShort(ax.Body, name) {
 					use = true
 					break
 				}
@@ -435,6 +446,58 @@ func (c *Ctx) finish(res *FuncResult) {
 		}
 	}
 	res.Prelude = c.reg.Prelude() + c.reg.ImplementsFacts(c.ifaceTypes) + strings.Join(axLines, "\n") + "\n"
+}
+
+func mentionsShort(e Expr, name string) bool {
+	found := false
+	walkExpr(e, func(x Expr) {
+		if c, ok := x.(*ECall); ok {
+			s := c.Fn
+			if i := strings.LastIndex(s, "."); i >= 0 {
+				s = s[i+1:]
+			}
+			if s == name {
+				found = true
+			}
+		}
+		if id, ok := x.(*EIdent); ok && id.Name == name {
+			found = true
+		}
+	})
+	return found
+}
+
+func walkExpr(e Expr, f func(Expr)) {
+	if e == nil {
+		return
+	}
+	f(e)
+	switch x := e.(type) {
+	case *ECall:
+		for _, a := range x.Args {
+			walkExpr(a, f)
+		}
+	case *ESel:
+		walkExpr(x.X, f)
+	case *EIndex:
+		walkExpr(x.X, f)
+		walkExpr(x.I, f)
+	case *EUnary:
+		walkExpr(x.X, f)
+	case *EBinary:
+		walkExpr(x.L, f)
+		walkExpr(x.R, f)
+	case *ECond:
+		walkExpr(x.C, f)
+		walkExpr(x.A, f)
+		walkExpr(x.B, f)
+	case *EQuant:
+		walkExpr(x.Body, f)
+	case *ESlice:
+		walkExpr(x.X, f)
+		walkExpr(x.Lo, f)
+		walkExpr(x.Hi, f)
+	}
 }
 
 func mentions(e Expr, name string) bool {
